@@ -127,12 +127,16 @@ func (s *Sched) waitCond(what string, pred func() bool) {
 	deadline := time.Now().Add(5 * time.Second)
 	s.mu.Lock()
 	defer s.mu.Unlock()
+	wait := 5 * time.Microsecond
 	for !pred() {
 		if time.Now().After(deadline) {
 			panic(&StallError{what + fmt.Sprintf(" parked=%v enq=%v done=%v", s.keysLocked(), s.enq, s.done)})
 		}
 		s.mu.Unlock()
-		time.Sleep(20 * time.Microsecond)
+		time.Sleep(wait)
+		if wait < 200*time.Microsecond {
+			wait += wait / 2 // back off: a loaded machine must not be loaded further by polling
+		}
 		s.mu.Lock()
 	}
 }
